@@ -291,27 +291,46 @@ theorem C25_event_after_stop_old_counterexample :
 /-! ### (c) query stream -/
 
 /-- **Query stream.**  For every schedule (Serf deliveries, close, deadline, select choices,
-failing sends), starting with or without an ack channel: the acks sent are a prefix of the
-acks Serf delivered and the responses sent a prefix of the responses Serf delivered (so
-every record is a real one, in order, none twice); while `Stream` runs no `done` has been
-sent; and once it has returned — unless a client send failed — the records are
-acks/responses followed by exactly one `done`. -/
-theorem C25_query_stream (ackNil : Bool) (sched : List QAct) :
-    let s := qRun { ackNil := ackNil } sched
+failing sends), starting with or without an ack channel and whether or not the query's deadline
+has already passed when the stream goroutine starts: the acks sent are a prefix of the acks Serf
+delivered and the responses sent a prefix of the responses Serf delivered (so every record is a
+real one, in order, none twice); while `Stream` runs no `done` has been sent; and once it has
+returned — unless a client send failed — the records are acks/responses followed by exactly one
+`done`. -/
+theorem C25_query_stream (ackNil expired : Bool) (sched : List QAct) :
+    let s := qRun (qStart goodQ ackNil expired) sched
     acksOf s.out <+: s.pushedAcks ∧ respsOf s.out <+: s.pushedResps ∧
     (s.stopped = false → s.out.all (!·.isDone) = true) ∧
     (s.stopped = true → s.failed = true ∨ ∃ pre, s.out = pre ++ [.done] ∧ pre.all (!·.isDone) = true) := by
-  have h := qRun_inv sched _ (qinv_fresh ackNil)
+  have hst : qStart goodQ ackNil expired = { ackNil := ackNil, fired := expired } := by simp [qStart, goodQ]
+  rw [hst]
+  have h := qRun_inv sched _ (qinv_fresh ackNil expired)
   exact ⟨h.acks_pre, h.resps_pre, h.no_done_live, h.done_last⟩
 
+/-- **The completion record is always sent**: whenever the deadline has fired — in particular
+when it had already passed before the stream started (`qStart … expired = true`: a timeout of 1 ns,
+a negative one, a slow start) — and the select takes the `done` case, `done` is appended and
+`Stream` returns; there is no way out of the loop without it other than a failed send. -/
+theorem C25_query_done_is_sent (ackNil expired : Bool) (sched : List QAct)
+    (hrun : (qRun (qStart goodQ ackNil expired) sched).stopped = false)
+    (hfired : (qRun (qStart goodQ ackNil expired) sched).fired = true) :
+    (qStep (qRun (qStart goodQ ackNil expired) sched) (.selDone true)).out =
+      (qRun (qStart goodQ ackNil expired) sched).out ++ [.done] ∧
+    (qStep (qRun (qStart goodQ ackNil expired) sched) (.selDone true)).stopped = true := by
+  simp [qStep, hrun, hfired]
+
+/-- an expired query: the first thing the select can do is send `done` -/
+example : (qRun (qStart goodQ false true) [.selDone true]).out = [.done] ∧
+    (qRun (qStart goodQ false true) []).stopped = false ∧ (qRun (qStart goodQ false true) []).fired = true := by decide
+
 /-- Every ack/response record is a real one. -/
-theorem C25_query_records_real (ackNil : Bool) (sched : List QAct) (r : Rec)
-    (hr : r ∈ (qRun { ackNil := ackNil } sched).out) :
+theorem C25_query_records_real (ackNil expired : Bool) (sched : List QAct) (r : Rec)
+    (hr : r ∈ (qRun (qStart goodQ ackNil expired) sched).out) :
     match r with
-    | .ack a => a ∈ (qRun { ackNil := ackNil } sched).pushedAcks
-    | .response f p => (f, p) ∈ (qRun { ackNil := ackNil } sched).pushedResps
+    | .ack a => a ∈ (qRun (qStart goodQ ackNil expired) sched).pushedAcks
+    | .response f p => (f, p) ∈ (qRun (qStart goodQ ackNil expired) sched).pushedResps
     | .done => True := by
-  obtain ⟨h1, h2, _, _⟩ := C25_query_stream ackNil sched
+  obtain ⟨h1, h2, _, _⟩ := C25_query_stream ackNil expired sched
   have memA : ∀ (l : List Rec) a, Rec.ack a ∈ l → a ∈ acksOf l := by
     intro l a h
     induction l with
@@ -364,7 +383,9 @@ theorem C25_src_event_stream : Gen.IpcStreamShape.eventStream.ok = true := by de
 
 /-- The select loop of `Stream` denotes the model's variant: both receives use the ok flag with
 `ch = nil; continue`, failing sends return, `sendDone` is called at exactly one place — the
-`<-done` case, which returns — and there is no `break` (seeded C25-a). -/
+`<-done` case, which returns — there is no `break` (seeded C25-a), and before the loop there are
+only the four definitions: the deadline timer is armed unconditionally from `resp.Deadline()`, no
+early return (seeded C25-d). -/
 theorem C25_src_query_loop : qVariantOf Gen.IpcStreamShape.queryLoop = goodQ := by decide
 
 theorem qStepV_good (s : QS) (a : QAct) : qStepV goodQ s a = qStep s a := by
@@ -377,14 +398,25 @@ theorem qRunV_good (s : QS) (sched : List QAct) : qRunV goodQ s sched = qRun s s
     simp only [qRunV, qRun, List.foldl_cons, qStepV_good] at *
     exact ih _
 
-/-- **Query stream, for the loop shape the source has.** -/
-theorem C25_query_stream_for_source_shape (ackNil : Bool) (sched : List QAct) :
-    let s := qRunV (qVariantOf Gen.IpcStreamShape.queryLoop) { ackNil := ackNil } sched
+/-- **Query stream, for the shape the source has** (prologue and loop). -/
+theorem C25_query_stream_for_source_shape (ackNil expired : Bool) (sched : List QAct) :
+    let v := qVariantOf Gen.IpcStreamShape.queryLoop
+    let s := qRunV v (qStart v ackNil expired) sched
     acksOf s.out <+: s.pushedAcks ∧ respsOf s.out <+: s.pushedResps ∧
     (s.stopped = false → s.out.all (!·.isDone) = true) ∧
     (s.stopped = true → s.failed = true ∨ ∃ pre, s.out = pre ++ [.done] ∧ pre.all (!·.isDone) = true) := by
-  rw [C25_src_query_loop, qRunV_good]
-  exact C25_query_stream ackNil sched
+  simp only [C25_src_query_loop, qRunV_good]
+  exact C25_query_stream ackNil expired sched
+
+/-- **Regression witness (seeded C25-d)**: if `Stream` returns before the loop when the deadline
+has already passed, such a query gets no completion record at all: the stream has returned, no
+send failed, and the records do not end with `done`. -/
+theorem C25_return_if_expired_counterexample :
+    let v : QVariant := { returnIfExpired := true }
+    (qRunV v (qStart v false true) [.selDone true]).stopped = true ∧
+    (qRunV v (qStart v false true) [.selDone true]).failed = false ∧
+    (qRunV v (qStart v false true) [.selDone true]).out = [] ∧
+    wellFormed (qRunV v (qStart v false true) [.selDone true]).out = false := by decide
 
 /-- **Regression witness (seeded C25-a)**: a completion record sent when the response channel is
 found closed, with the loop going on (`break` leaves only the select): the deadline then sends a
